@@ -2,14 +2,14 @@ SPECIFICATION MCSpec
 CONSTANTS
   F = {"b", "c"}
   MaxRec = 2
-  MaxEp = 2
+  MaxEp = 1
   FetchMax = 1
   SlowTimeouts = TRUE
   ZombieSteals = FALSE
   MaxTick = 1
   MaxSlow = 1
   MaxIdleT = 1
-  MaxKill = 1
+  MaxKill = 0
   TrackLast = FALSE
 INVARIANTS Inv
 PROPERTIES StepsOK
